@@ -127,7 +127,12 @@ def _loops_of(node: ast.AST) -> List[ast.For]:
 
 
 def _loop_header(n: ast.For) -> str:
-    return ast.dump(n.target) + " in " + ast.dump(n.iter)
+    """shape of `for <target> in <iter>` with every local name blanked (renaming locals must not change it); attribute
+    names, call structure and constants stay"""
+    import copy
+    import re as _re
+    txt = ast.dump(n.target) + " in " + ast.dump(n.iter)
+    return _re.sub(r"Name\(id='[^']*'", "Name(id='_'", txt)
 
 
 def loop_ordinal(info, stmt: ast.For) -> int:
